@@ -25,8 +25,11 @@ open Shexer
 theorem removal_uses_membership_only (cfg : Config) (gone gone' : List String) (sh : Shexer.Shape)
     (h : ∀ x, gone.contains x = gone'.contains x) : Shexer.dropRefs cfg gone sh = Shexer.dropRefs cfg gone' sh := by
   unfold Shexer.dropRefs
-  have hk : (fun s : Shexer.Stmt => !gone.contains s.ty) = (fun s : Shexer.Stmt => !gone'.contains s.ty) := by
-    funext s; rw [h]
+  have hk : (fun s : Shexer.Stmt => !gone.contains s.ty && (!s.choice || !(s.types.any fun ty => gone.contains ty)))
+      = (fun s : Shexer.Stmt => !gone'.contains s.ty && (!s.choice || !(s.types.any fun ty => gone'.contains ty))) := by
+    funext s
+    have : (fun ty => gone.contains ty) = (fun ty => gone'.contains ty) := funext h
+    rw [h, this]
   simp only [hk]
 
 theorem removal_order_free (cfg : Config) (gone gone' : List String) (hp : gone.Perm gone') (sh : Shexer.Shape) :
